@@ -468,6 +468,14 @@ func TestVerifC03(t *testing.T) {
 	r.Floor("fork_tree_depth_ge_3", 100)
 	r.Floor("own_root_compared_with_spec", 1000)
 
+	r.Floor("state_forks_cache_miss", 150)
+	r.Floor("state_forks_cache_hit", 150)
+	r.Floor("state_roots_with_sibling_forks", 50)
+	r.Floor("state_forks_of_forks", 100)
+	r.Floor("state_writes_inside_transaction", 200)
+	r.Floor("state_writes_outside_transaction", 500)
+	r.Floor("state_isolation_observations", 5000)
+
 	names, vers, scripts := corpus3()
 	r.Fixed("corpus", len(scripts), func(c *vcommon.Case) {
 		if !specOK(c) {
@@ -475,6 +483,10 @@ func TestVerifC03(t *testing.T) {
 		}
 		runScript3(c, names[c.Idx], vers[c.Idx], scripts[c.Idx])
 	})
+
+	// production snapshot path: InmemoryStorageState.TrieState(root) on cache hits and cache misses
+	r.Fixed("state-corpus", 3, func(c *vcommon.Case) { runStateScript(c, c.Idx) })
+	r.Cases("state-forks", r.Scale(400), func(c *vcommon.Case) { runStateForks(c, false) })
 
 	// asserted: by the contract of Snapshot() a trie is written only until snapshots are taken from it
 	r.Cases("forks", r.Scale(1200), func(c *vcommon.Case) {
